@@ -12,7 +12,8 @@ from .c15 import digest
 
 
 def cross_type_events(env, rng, thorough):
-    from barril.units import Array, FractionScalar, ObtainQuantity, Scalar
+    from collections import OrderedDict
+    from barril.units import Array, FractionScalar, ObtainQuantity, Quantity, Scalar
 
     db = env.db
     base = {qt: infos[0].unit for qt, infos in db.quantity_types.items()}
@@ -66,6 +67,10 @@ def cross_type_events(env, rng, thorough):
             ("FractionScalar(cat,x,v)", lambda: FractionScalar(ca, value=1.0, unit=ub)),
             ("FractionScalar<FractionScalar", lambda: fa < fb),
             ("FractionScalar.GetValue(v)", lambda: fa.GetValue(ub)),
+            # a derived quantity in which a later category carries a unit of an earlier category's quantity type
+            ("Quantity.CreateDerived({cat_a: [u_a, 1], cat_b: [u_a, 1]})", lambda: Quantity.CreateDerived(OrderedDict([(ca, [ua, 1]), (cb, [ua, 1])]))),
+            ("Quantity.CreateDerived({cat_b: [u_b, 1], cat_a: [u_b, -2]})", lambda: Quantity.CreateDerived(OrderedDict([(cb, [ubc, 1]), (ca, [ubc, -2])]))),
+            ("Quantity.CreateDerived({cat_a: [u_a, 2], cat_b: [u_a, -1]})", lambda: Quantity.CreateDerived(OrderedDict([(ca, [ua, 2]), (cb, [ua, -1])]))),
         ]
         objs = [sa, sb, aa, ab, fa, fb]
         for name, fn in calls:
